@@ -1,5 +1,78 @@
 import NessaiVerif.Driver.Parse
-/- stub: replaced by the owner of this area -/
+import NessaiVerif.Model.Threshold
+import NessaiVerif.Gen.Threshold
+import NessaiVerif.Gen.ThresholdTx
+/- Line protocol of the `thr` area (C17).  Rationals travel as `p/q`, options as `none`/value. -/
 namespace NessaiVerif.Driver.Threshold
-def handle (_toks : List String) : String := "bad-op"
+open NessaiVerif NessaiVerif.Parse NessaiVerif.Np NessaiVerif.Threshold NessaiVerif.Gen.Threshold
+
+def showClamp : Clamp → String
+  | .early v => s!"early {v}"
+  | .index n => s!"index {n}"
+
+def showOutcome (logL : List Rat) : Outcome Rat → String
+  | .early v => s!"early {v}"
+  | .indexError => "err=index"
+  | .threshold _ x => s!"thr {showRat x} removed={countBelow x logL} kept={countKept x logL}"
+
+/--
+* `thr clamp <n0> <size> <minS> <minR> <nlive> <maxS|none> <dc>` → the generated clamp and the position
+  read on an array of that size: `pos <p>` | `err=index` | `early <v>`
+* `thr full <logL list> <n0> <minS> <minR> <nlive> <maxS|none> <dc>` → `thr <x> removed=<r> kept=<k>` | `early <v>` | `err=index`
+* `thr train <threshold> <logL list> <minS>` → start and length of `x[n_train:]` for the generated `n_train` with
+  `k = argmax(logL >= threshold)` (`err=ValueError` on an empty array, as `np.argmax`)
+* `thr entropy <q> <p list>` / `thr qidx <cutoff> <a list>` → raw index of the two methods
+* `thr wq <tbl list> <vals list>` → `Σ (tbl[i+1]-tbl[i])·vals[i]`;  `thr ends <w list>` → end points
+* `thr tx <a> <b> <c|none> <flag>` → translator self-test definition
+-/
+def handle (toks : List String) : String :=
+  match toks with
+  | ["clamp", n0, size, ms, mr, nl, mx, dc] =>
+    match parseInt? n0, parseNat? size, parseInt? ms, parseInt? mr, parseInt? nl,
+          parseOpt? parseInt? mx, parseBool? dc with
+    | some n0, some size, some ms, some mr, some nl, some mx, some dc =>
+      match clampIndex n0 size ms mr nl mx dc with
+      | .early v => s!"early {v}"
+      | .index n =>
+        match pyIndex size n with
+        | some p => s!"pos {p}"
+        | none => "err=index"
+    | _, _, _, _, _, _, _ => "bad-op"
+  | ["full", ll, n0, ms, mr, nl, mx, dc] =>
+    match parseList? parseRat? ll, parseInt? n0, parseInt? ms, parseInt? mr, parseInt? nl,
+          parseOpt? parseInt? mx, parseBool? dc with
+    | some ll, some n0, some ms, some mr, some nl, some mx, some dc =>
+      showOutcome ll (finish ll (clampIndex n0 ll.length ms mr nl mx dc))
+    | _, _, _, _, _, _, _ => "bad-op"
+  | ["train", t, ll, ms] =>
+    match parseRat? t, parseList? parseRat? ll, parseInt? ms with
+    | some t, some ll, some ms =>
+      -- np.argmax of an empty array raises ValueError
+      if ll.isEmpty then "err=ValueError" else
+      let k := quantileIndex ll t
+      let n := nTrain ll.length ms k
+      s!"start {pySliceStart ll.length n} len {pySliceLen ll.length n}"
+    | _, _, _ => "bad-op"
+  | ["entropy", q, p] =>
+    match parseRat? q, parseList? parseRat? p with
+    | some q, some p => if p.isEmpty then "err=index" else s!"n {entropyIndex p q}"
+    | _, _ => "bad-op"
+  | ["qidx", c, a] =>
+    match parseRat? c, parseList? parseRat? a with
+    | some c, some a => s!"n {quantileIndex a c}"
+    | _, _ => "bad-op"
+  | ["wq", t, v] =>
+    match parseList? parseRat? t, parseList? parseRat? v with
+    | some t, some v => showRat (wq t v)
+    | _, _ => "bad-op"
+  | ["ends", w] =>
+    match parseList? parseRat? w with
+    | some w => showList showRat (endPoints w)
+    | _ => "bad-op"
+  | ["tx", a, b, c, f] =>
+    match parseInt? a, parseInt? b, parseOpt? parseInt? c, parseBool? f with
+    | some a, some b, some c, some f => showClamp (NessaiVerif.Gen.ThresholdTx.txSelfTest a b c f)
+    | _, _, _, _ => "bad-op"
+  | _ => "bad-op"
+
 end NessaiVerif.Driver.Threshold
